@@ -60,7 +60,9 @@ ASSUMPTIONS = ["filters (`registries.match`) enter the model as the observed per
                "a function stacked as @on.resume + @on.update under ONE id is outside the theorems (not generated either)",
                "the memory of an object is created by its first processed event (`recall`) — except when an admission request came "
                "first (`admission`, finding F10): the positive theorems start from `none`",
-               "timeout= on resuming handlers is not generated (the oracle's `final_call` does not judge time-outs)",
+               "timeout= on resuming handlers: the oracle's `final_call` judges only the sure case (the requested delay alone reaches "
+               "the timeout); a time-out that depends on the time already spent is not counted as a completion by the oracle "
+               "(the theorems cover every final outcome)",
                "one operator process = one memory: a restart is a fresh `run … none`; nothing is claimed across processes "
                "(the property allows one run per process)"]
 
@@ -249,8 +251,8 @@ def _handled_object(name: str = "a", label: str = "1") -> dict:
 
 def gen_allfiltered(rng: Any, i: int) -> dict:
     """EVERY handler is label-filtered: when the label flips away in the middle of an open resuming cycle, nothing
-    matches the object any more (`prematch` fails: the blind branch of `process_resource_causes` purges the records and
-    drops the cause); then it flips back."""
+    matches the object any more (`prematch` fails: the blind branch of `process_resource_causes` drops the cause — and,
+    between /repo 423b86f and ad4ec08, purged the records); then it flips back."""
     lab = {"labels": {"l": "1"}}
     handlers: list[dict] = [{"kind": "resume", "id": "r0", "opts": dict(lab), "script": [rng.choice(["ok", "ok", "perm"])]}]
     for k in range(1, rng.choice([2, 2, 3])):
@@ -276,7 +278,7 @@ def gen_allfiltered(rng: Any, i: int) -> dict:
             "settings": {"execution.default_backoff": 1.0, "watching.reconnect_backoff": 0.125}, "end": t + 30.0}
 
 
-SHAPES = ["plain", "retries-temp", "retries-arb", "errors-permanent", "errors-ignored", "subs", "subs-pending"]
+SHAPES = ["plain", "retries-temp", "retries-arb", "errors-permanent", "errors-ignored", "subs", "subs-pending", "timeout-temp"]
 
 
 def gen_shapes(rng: Any, i: int) -> dict:
@@ -293,6 +295,10 @@ def gen_shapes(rng: Any, i: int) -> dict:
         opts["retries"] = n
         opts["backoff"] = 0.5
         r1["script"] = [["temp", 0.5] if shape == "retries-temp" else "arb"] * n + ["ok"] * 3
+        r1["default"] = "perm"
+    elif shape == "timeout-temp":    # gives up at the first failure: the requested delay alone exceeds the timeout
+        opts["timeout"] = 1.0
+        r1["script"] = [["temp", 2.0]] + ["ok"] * 3
         r1["default"] = "perm"
     elif shape.startswith("errors-"):
         opts["errors"] = shape.split("-")[1]
@@ -374,7 +380,9 @@ def final_call(h: dict, c: dict) -> bool:
     if out == "arb":
         return str(opts.get("errors") or "temporary").lower() in ("ignored", "permanent") or last
     if out == "temp":
-        return last
+        # … or the requested delay alone reaches the declared timeout= (the time already spent only adds to it)
+        timeout = opts.get("timeout")
+        return last or (timeout is not None and c.get("delay") is not None and float(c["delay"]) >= float(timeout))
     return False     # "subhandlers" (children pending), None (cancelled / still running)
 
 
@@ -607,6 +615,11 @@ def run(ctx: Ctx) -> None:
         m = out[1]
         if m["mem"] is not None:
             m["mem"]["resumed"] = sorted(set(m["mem"]["resumed"]))
+        if m["reason"] not in ("create", "update", "delete", "resume") and impl["reason"] == m["reason"]:
+            # the code selects no handlers at all for an informational cause (free/gone/noop): what `get_handlers` WOULD
+            # give (asked by the observer, computed by the model's gate) is not a behaviour of the code
+            impl = {**impl, "selected": None if impl["selected"] is None else []}
+            m = {**m, "selected": []}
         model = {"mem": m["mem"], "reason": m["reason"],
                  "selected": m["selected"] if impl["selected"] is not None else None,
                  "invoked": m["invoked"], "P": m["P"] if impl["P"] is not None else None}
